@@ -36,11 +36,11 @@ EXTRA_MODULES = {
     "C11": ["Proofs.C11", "Proofs.C11Source", "Proofs.SrcLoop"],
     "C13": ["Proofs.RunLemmas", "Proofs.HyphenFace", "Proofs.C13Source", "Proofs.HyphenSource", "Proofs.HyphenSourceCompile", "Proofs.C19E2E"],
     "C12": ["Proofs.C12", "Proofs.C12Source"],
-    "C14": ["Proofs.C14", "Proofs.C14Source", "Proofs.C14Errors"],
+    "C14": ["Proofs.C14", "Proofs.C14Source", "Proofs.C14Errors", "Proofs.C14Depth"],
     "C18": ["Proofs.C18"],
     "C19": ["Proofs.C19", "Proofs.E2ESpell", "Proofs.E2ELex", "Proofs.E2EToken", "Proofs.E2EUnits", "Proofs.E2EScan", "Proofs.E2ECompile",
             "Proofs.E2EEquiv"],
-    "C01": ["Proofs.C01", "Proofs.NoPanic", "Proofs.StdNoPanic", "Proofs.ArrNoPanic", "Proofs.JsonFilter", "Proofs.DateFilter"],
+    "C01": ["Proofs.C01", "Proofs.C01Depth", "Proofs.NoPanic", "Proofs.StdNoPanic", "Proofs.ArrNoPanic", "Proofs.JsonFilter", "Proofs.DateFilter"],
     "C17": ["Proofs.DateFilter"],
     "C02": ["Proofs.C02", "Proofs.JsonFilter", "Proofs.MapOrder"],
     "C03": ["Proofs.C03"],
